@@ -153,7 +153,8 @@ def run_case(item):
     try:
         before = F.snapshot(sb.root)
         t0 = F.read_state(sb.target)
-        out = F.run_child(sc["entry"], real_args(sc, sb), sb.root, sb.target, C.SRC_ROOT, plan)
+        runner = F.run_child if plan.get("kill") is not None or os.environ.get("VERIF_FS_ALWAYS_FORK") else F.run_inproc
+        out = runner(sc["entry"], real_args(sc, sb), sb.root, sb.target, C.SRC_ROOT, plan)
         after = F.snapshot(sb.root)
         t1 = F.read_state(sb.target)
         tmps = C.tmp_files(sb.parent)
@@ -355,6 +356,7 @@ def run(ctx: vlib.Ctx):
     import time as _t
     t0 = _t.time()
     phases = {}
+    F.preload()   # pool workers are forked from this process: they inherit the imported implementation
     ctx.translate(PROJECT)
     proj = ctx.lean(PROJECT, PROPS)
     phases["translate+lean build+audit"] = round(_t.time() - t0, 1)
